@@ -204,6 +204,11 @@ def derived_sizes(lib):
   return set(lib.model_sizes[i:]) - {'nbuffer'}
 
 
+# enumerations select how other fields are interpreted but are not cross-references: reported as labels, not judged
+TYPE_FIELDS = ('geom_type', 'geom_condim', 'wrap_type', 'actuator_trntype', 'eq_type', 'eq_objtype', 'sensor_objtype',
+               'sensor_reftype', 'tuple_objtype')
+
+
 def problem_fingerprint(p):
   """Root-cause family of an out-of-range reference found in an accepted model. p = [field, index, value, why, kind, num]."""
   field, _, value, _, kind, num = p
@@ -428,6 +433,12 @@ class C31:
           ck.violation(msg + '\n(derived size %s is copied from the file without validation)' % field, replay,
                        bucket='derived-size-trusted', fingerprint='mjb-derived-size-trusted')
           self.note_family('mjb-derived-size-trusted', '%s -> crash in %s during %s' % (field, fn, stage))
+        elif stage == 'load' and fn == 'bufread':
+          # the destination of bufread can only be overrun when the size used for reading differs from the size used for
+          # allocating, i.e. when a size that mj_makeModel derives (nnames_map ...) is overwritten from the file
+          ck.violation(msg + '\n(array size read from the file differs from the size the model was allocated with)', replay,
+                       bucket='derived-size-trusted', fingerprint='mjb-derived-size-trusted')
+          self.note_family('mjb-derived-size-trusted', '%s -> %s in bufread during load' % (case['what'][:60], kind))
         elif stage == 'load':
           ck.violation(msg, replay, bucket='load-crash:%s:%s' % (kind, fn), fingerprint='mjb-load-crash:%s:%s' % (kind, fn))
         elif case.get('reference'):
@@ -459,8 +470,11 @@ class C31:
       else:
         if r.get('same'):
           labels.append('outcome:accepted-noop')
+        elif r['problems'] and all(q[0] in TYPE_FIELDS for q in r['problems']):
+          labels.append('outcome:accepted-bad-enum(not judged)')
+          self.note_family('not-judged:enum-value-out-of-range-accepted', r['problems'][0][0])
         elif r['problems']:
-          p = r['problems'][0]
+          p = [q for q in r['problems'] if q[0] not in TYPE_FIELDS][0]
           labels.append('outcome:accepted-INVALID')
           if derived:
             fp, why = 'mjb-derived-size-trusted', 'derived size %s is copied from the file without validation' % field
@@ -504,7 +518,7 @@ class C31:
             continue
           hx = i32(v) if isz == 4 else i64(v)
           out.append(dict(model=rec['name'], cls='index', field=field, what='%s[%d]: %d -> %d (%s)' % (
-              field, i, int(flat[i]), v, why), ops=[['set', off + i * isz, hx]], checkfields=checkfields, reference=checkfields is not None or why == 'special relation'))
+              field, i, int(flat[i]), v, why), ops=[['set', off + i * isz, hx]], checkfields=checkfields, reference=(checkfields is not None or why == 'special relation') and field not in TYPE_FIELDS))
     for r in modelref.relations(lib):
       f = r.field
       a = np.asarray(getattr(m, f)).ravel()
@@ -732,8 +746,13 @@ def main(ck):
   # ---------- choose models for corruption: the richest small generated models + a greedy cover of the relation table
   small = sorted([r for r in recs if r['nbytes'] < 150000], key=lambda r: -len(r['xml']))
   gen_pick = small[:ck.budget(2, 10)]
-  cov = pick_cover(c, gen_pick + [r for r in crecs if r['nbytes'] < (150000 if quick else 4 << 20)], rels)
+  cpool = [r for r in crecs if r['nbytes'] < (150000 if quick else 1 << 20)]
+  cov = pick_cover(c, gen_pick + cpool, rels)
   targets = list(gen_pick) + [r for r in cov if r not in gen_pick]
+  if not quick:      # second and third cover from the remaining corpus models
+    for _ in range(2):
+      rest = [r for r in cpool if r not in targets]
+      targets += pick_cover(c, rest, rels)
   covered = set()
   for r in targets:
     for rel in rels:
@@ -745,10 +764,14 @@ def main(ck):
   ck.extra['corruption_models'] = [dict(name=r['name'], nbytes=r['nbytes']) for r in targets]
 
   # ---------- (c1) systematic index corruption: each field once (first model that has it), all fields on gen_pick[0]
-  done_fields = set()
+  import collections
+  done_fields = collections.Counter()
+  reps = 1 if quick else 3
   for k, r in enumerate(targets):
-    cases = [x for x in c.index_cases(r, per_field=1 if quick else 2, other=True, quick=quick) if x['field'] not in done_fields]
-    done_fields.update(x['field'] for x in cases)
+    cases = [x for x in c.index_cases(r, per_field=1 if quick else 2, other=True, quick=quick)
+             if done_fields[x['field']] < reps]
+    for f in set(x['field'] for x in cases):
+      done_fields[f] += 1
     c.run_cases(r, cases)
   _tick('index-enumeration')
   ck.extra['int_fields_enumerated'] = len(done_fields)
@@ -809,16 +832,16 @@ def fuzz(ck, c, recs):
   jobs = 1 if ck.quick else 4
   cmd = [exe, cdir, '-max_total_time=%d' % secs, '-artifact_prefix=' + adir + '/', '-max_len=400000', '-timeout=20',
          '-rss_limit_mb=3000', '-malloc_limit_mb=512', '-seed=%d' % ck.seed, '-print_final_stats=1', '-len_control=0']
-  if jobs > 1:
-    cmd += ['-fork=%d' % jobs, '-ignore_crashes=1', '-ignore_timeouts=1', '-ignore_ooms=1']
+  # fork mode also in the quick tier: the run continues after the first (known) crash
+  cmd += ['-fork=%d' % jobs, '-ignore_crashes=1', '-ignore_timeouts=1', '-ignore_ooms=1']
   env = dict(os.environ)
   env['LD_PRELOAD'] = vb.ASAN_RT
   env['ASAN_OPTIONS'] = 'detect_leaks=0:allocator_may_return_null=1:abort_on_error=0:exitcode=77:max_allocation_size_mb=512'
   p = subprocess.run(cmd, capture_output=True, text=True, env=env, timeout=secs + 300, errors='replace')
   log = p.stderr
   import re
-  execs = re.findall(r'stat::number_of_executed_units:\s*(\d+)', log)
-  ck.extra['fuzz_execs'] = sum(int(x) for x in execs) if execs else None
+  execs = re.findall(r'#(\d+): cov:', log)
+  ck.extra['fuzz_execs'] = max(int(x) for x in execs) if execs else None
   ck.extra['fuzz_seconds'] = secs
   ck.extra['fuzz_seed_inputs'] = n
   arts = sorted(os.listdir(adir))
@@ -838,9 +861,17 @@ def fuzz(ck, c, recs):
     if '/shims/' in loc:
       raise RuntimeError('harness: fuzz crash inside shims: %s %s' % (fn, loc))
     data = open(path, 'rb').read()
+    if kind == 'unknown' and fn == '?':
+      ck.label('fuzz:artifact-not-reproduced(inconclusive)')
+      continue
+    seen = ck.extra.setdefault('fuzz_crash_buckets', {})
+    seen['%s:%s' % (kind, fn)] = seen.get('%s:%s' % (kind, fn), 0) + 1
+    if seen['%s:%s' % (kind, fn)] > 1:
+      continue
+    fp = 'mjb-derived-size-trusted' if fn == 'bufread' else 'mjb-fuzz:%s:%s' % (kind, fn)
     ck.violation('fuzz_mjb: %s in %s %s on a %d-byte input\n%s' % (kind, fn, loc, len(data), rep[-1500:]),
-                 dict(input_hex=data[:200000].hex(), artifact=a), bucket='fuzz:%s:%s' % (kind, fn),
-                 fingerprint='mjb-fuzz:%s:%s' % (kind, fn))
+                 dict(input_hex=data[:200000].hex(), artifact=a), bucket=fp if fn == 'bufread' else 'fuzz:%s:%s' % (kind, fn),
+                 fingerprint=fp)
   if p.returncode not in (0,) and not arts:
     ck.extra['fuzz_rc'] = p.returncode
     ck.extra['fuzz_tail'] = log[-600:]
